@@ -23,7 +23,7 @@ CHECKS = {
         engine="Replicas",
         technique="TLA+ spec Replicas (emitter buffer, subscriber, log, best-effort sidecar with rebuild, snapshot as separately scheduled steps) model-checked with TLC; recorded scenarios and generated histories (random sequences over the alphabet of client operations and unusual payloads) through the real router with a live SSE subscriber per stream validated by TLC per stream (ReplicasTrace: live, late subscriber, raw log, replayed log, sidecar, snapshot as digests of canonical JSON); every frame type and its payload mutants through rip_kernel::Event and EventLog append / replay",
         text="TLC proves LiveIsLog, SidecarIsPrefixOfLog, SnapshotIsLog and NothingExtra for every interleaving of record / publish / append / sidecar append / rebuild / snapshot over three streams, and finds the counterexample when a log append may fail silently; three scenarios (provider runs with unicode text, tool calls that succeed and fail, an HTTP error, a junk event, request dumps; tool and checkpoint commands; tasks incl. cancel and refused requests; every continuity operation incl. branch and handoff) plus generated histories (30 in the quick tier, 500 in the thorough tier: 4-9 steps drawn from 13 provider answers incl. null / empty / malformed call arguments, 15 tool and checkpoint commands linked and unlinked, 10 task requests, 13 continuity operations, with and without a torn sidecar + restart at the end) are run with one subscriber per stream from its first frame and TLC checks for each of the streams that the live frames, a late subscriber, the raw log lines, the code's replay, the sidecar and the snapshot are the same frames in the same order with contiguous seqs; all 38 frame types (33 as emitted, 5 written from their definitions) and about 1 000 payload mutants (unicode, control characters, 100 KB strings, empty collections, nested JSON, u64::MAX, optional fields absent / null) must keep every field and their stream assignment through parse / serialise and through append / replay.",
-        note="Three written scenarios + random histories over a fixed alphabet, not exhaustive over histories; a crash between publish and append is outside the model; PTY-only frame types are covered by the round trip only.",
+        note="Three written scenarios (the thread scenario also with five kinds of damaged sidecar + restart and with the sidecar lost mid-run) + random histories over a fixed alphabet, not exhaustive over histories; idle streams in the middle of their life (a task / tool that printed and then sleeps) must have every frame their live subscriber holds in the log file (polled with patience, Replicas!NothingExtra at Quiet); a crash between publish and append is outside the model; PTY-only frame types are covered by the round trip only.",
         ref="4 C03"),
     "C04": dict(
         engine="StoreCache",
@@ -48,7 +48,7 @@ CHECKS = {
         engine="RunLoop",
         technique="TLA+ spec RunLoop (the agent loop folded over a provider script; exact thread frame sequence of a run) checked with TLC; one provider script per distinct predicted run played by a scripted provider against the real router; thread and session streams compared with the prediction; generated histories (random operation sequences) validated in file order by TLC against the life-cycle state machines of LifecycleTrace",
         text="TLC proves Ordered over all provider scripts of the alphabet and prints one script per distinct predicted run (text, tool calls, malformed JSON, schema-invalid events, HTTP 500, connection reset mid-body, end without [DONE], empty body x tool choices x history modes); the scripted provider plays each against the real router and the run's thread frames must be exactly the predicted sequence (selection, compilation, one side-effects frame per executed lock-path tool, cursor iff completed with a response id, run_ended last and once), the session stream must start with its start frame at seq 0, end with exactly one end frame and be gap-free, run_ended must follow the run's session_ended in file order; 13 further scenarios cover envelopes, no provider, dead endpoint, compile failure, parallel runs and failing / succeeding compaction jobs (job ended at most once); generated histories (24 quick / 300 thorough: random sequences of prompts with 13 provider answers, tool and checkpoint envelopes, tasks and every continuity operation) are run for real and the whole log, in file order, is validated by TLC against the message / run / session / job state machines (LifecycleTrace; three corrupted copies of a recorded history must be rejected in every run).",
-        note="Provider behaviour alphabet = six response outcomes x 3-4 call items; byte-level variety belongs to C15. Also: operations on the thread after a run has ended (cursor rotate, checkpoints, compaction jobs) must not add frames carrying the ended run's id.",
+        note="Provider behaviour alphabet = six response outcomes x 3-4 call items; byte-level variety belongs to C15. Also: operations on the thread after a run has ended (cursor rotate, checkpoints, compaction jobs) must not add frames carrying the ended run's id; provider HTTP errors with 24 000-character bodies of 2- / 3- / 4-byte characters at every alignment and an invalid-UTF-8 body (the run must still end).",
         ref="4 C07"),
     "C08": dict(
         engine="Threads",
@@ -66,7 +66,7 @@ CHECKS = {
         engine="Threads",
         technique="TLA+ spec Threads (EffLineage: cut resolution for every selector class) model-checked with TLC (LineageSound); every (state, branch/handoff request) transition replayed on the real store and compared with the prediction",
         text="TLC proves LineageSound (cut within the parent, names the last message at or before it, parent untouched) on every reachable state and generates the predicted outcome of every selector class in every state; the real store must answer the same, add bytes only for the new thread (created@0, lineage@1) and a handoff's summary must be readable afterwards.",
-        note="Exhaustive within MaxFrames/MaxOps; artifact readability = blob file exists under .rip/artifacts/blobs. Also: a handoff's summary must be a readable artifact; handoffs while the artifact store cannot be written must fail and record nothing.",
+        note="Exhaustive within MaxFrames/MaxOps; artifact readability = blob file exists under .rip/artifacts/blobs. Also: a handoff's summary must be a readable artifact; handoffs while the artifact store cannot be written must fail and record nothing; a blank artifact id names nothing; 208 histories in which the source thread's sidecar or message-and-run view is torn, cut short, overwritten or missing (with and without a restart) must record the same cut, message and child frames as the intact store.",
         ref="4 C10"),
     "C11": dict(
         engine="WorkspaceLock",
@@ -102,7 +102,7 @@ CHECKS = {
         engine="RunLoop",
         technique="TLA+ spec RunLoop (call collection, output-order drain, tool-choice enforcement, call budget, stateful / stateless follow-ups) model-checked with TLC (ExecutedOnce, BarredNeverRuns, Bounded, Ordered); one provider script per distinct predicted run replayed through the real router; request bodies, tool_started frames and tool side effects compared with Run(cfg, script)",
         text="TLC proves ExecutedOnce, BarredNeverRuns, Bounded and Ordered for every script (2-3 responses x up to 2 call items incl. duplicate call ids via repeated done events, reversed output order, streamed arguments, an unknown tool; 6 response outcomes; 5 tool choices; both history modes) and prints one script per distinct predicted run; the real run must execute exactly the predicted calls in order (the append-only file written by the write tool counts executions), answer exactly the predicted call ids in the very next request, never execute a barred tool, stop at 32 calls, send previous_response_id / an extending input, and never send a request with validation errors.",
-        note="The scripted provider records the request bodies actually sent; call alphabet of 3-4 items. Also: the 32-call budget when every call is barred by tool_choice; stateless follow-ups on a thread whose compiled context is more than the prompt.",
+        note="The scripted provider records the request bodies actually sent; call alphabet of 3-4 items. Also: the 32-call budget when every call is barred by tool_choice; stateless follow-ups on a thread whose compiled context is more than the prompt; every request body any case sent (about 8 800, 330 distinct) is validated against CreateResponseBody.json of the repository's schema by an independent validator (python jsonschema, tools/validate_requests.py), and 22 runs echo unusual call ids / function names (empty, at and beyond the length limits, outside the name pattern, unicode) back into the follow-up.",
         ref="4 C16"),
     "C17": dict(
         engine="TaskLife",
